@@ -78,6 +78,17 @@ def programs_for(pid, tier, seed):
                gen.leaf('Wait', [1], [[1, 'ALL']], ['fixed', 0]), gen.leaf('Rx180', [1], [[1, 'MICROWAVE']], ['global', 'MW'])],
       reps=[('fixed', 1), ('fixed', 2)], acts=('NewCircuit', 'AddOp', 'AddSub', 'Apply', 'Obs'), linktypes=('FB', 'JE'),
       max_circs=2, max_objs=5, max_steps=5 if quick else 6, cap=700 if quick else 6000, one_in=100 if quick else 50, workers=4)
+    # (2b) exhaustive, implicit rule across nesting: one qubit, every channel kind, no explicit relation; a sub-circuit's
+    #      channels are what its operations occupy (ALL bridges the specific channels)
+    one = [gen.leaf('Wait', [0], [[0, ch]], ['fixed', 4]) for ch in ('ALL', 'MICROWAVE', 'FLUX')] + meas((0,), tags=('',))
+    g('chan', one, acts=('NewCircuit', 'AddOp', 'AddSub'), linktypes=(), max_circs=2, max_objs=7, max_steps=6 if quick else 7,
+      cap=500 if quick else 5000, one_in=4 if quick else 2, workers=4, min_emit=5)
+    # (2c) exhaustive, relations that refer to an operation nested inside an already added sub-circuit (the library warns
+    #      and falls back to the implicit rule; the listing must stay causal with respect to what operations report)
+    g('deep', [gen.leaf('Wait', [0], [[0, 'ALL']], ['fixed', 4]), gen.leaf('Rx180', [2], [[2, 'MICROWAVE']], ['global', 'MW'])]
+      + ([] if quick else [gen.leaf('Wait', [1], [[1, 'MICROWAVE']], ['fixed', 12])]),
+      acts=('NewCircuit', 'AddOp', 'AddSub'), linktypes=('FB',) if quick else ('FB', 'JS'), max_circs=2, max_objs=7, max_steps=6, deep=True,
+      cap=500 if quick else 5000, one_in=4, workers=4, min_emit=5)
     # (3) simulation: long programs over the full alphabet, overrides, registry durations, copies, unrolling
     full = waits(Q3, chans=('ALL', 'MICROWAVE', 'FLUX'), durs=(0, 2, 6), reg=True) + gates(Q3) + meas(Q3) + two(Q3)
     g('sim', full, reps=[('fixed', 1), ('fixed', 2), ('fixed', 3), ('reg', 'r1')], configs=(gen.DEFAULT_CFG, CFG_A, CFG_B),
